@@ -1,12 +1,14 @@
 package main
 
-// loading + type checking: same scheme as tools/errfacts (module packages from source with the overlay applied, everything
-// else through the "source" importer, offline)
+// loading + type checking: the packages of the module from source with the overlay applied, everything else through the
+// "source" importer (offline).  Besides the go/types results the loader keeps, for every function declaration of the module,
+// where it stands (`decls`, `lookup`: what canon.go and the helper inlining need) and the parent of every AST node.
 
 import (
 	"fmt"
 	"go/ast"
 	"go/build"
+	"go/importer"
 	"go/parser"
 	"go/token"
 	"go/types"
@@ -24,9 +26,23 @@ type loader struct {
 	pkgs            map[string]*types.Package
 	infos           map[string]*types.Info
 	files           map[string]map[string]*ast.File // import path -> relative file -> AST
-	decls           map[*types.Func]*helperDecl     // declarations of the module's functions / methods (canon.go, helpers)
-	renamed         []string                        // notes: private functions found under another name
+	decls           map[*types.Func]*helperDecl
+	parents         map[ast.Node]ast.Node // every node of every parsed file of the module -> its parent
+	listed          map[*types.Func]bool  // the listed functions (anchors): never inlined, a call of one stays a row
+	pass            map[*ast.FuncDecl][]int
+	renamed         []string // notes: private functions found under another name
 	problems        []string
+}
+
+func newLoader(repo, root string) *loader {
+	build.Default.Dir = repo              // third-party imports are resolved by `go list` run inside the module …
+	os.Setenv("GOFLAGS", "-mod=readonly") // … which must never rewrite <repo>/go.mod or go.sum, nor use the network
+	os.Setenv("GOPROXY", "off")
+	l := &loader{repo: repo, root: root, mod: moduleOf(repo), pkgs: map[string]*types.Package{}, infos: map[string]*types.Info{},
+		files: map[string]map[string]*ast.File{}, decls: map[*types.Func]*helperDecl{}, parents: map[ast.Node]ast.Node{},
+		listed: map[*types.Func]bool{}, pass: map[*ast.FuncDecl][]int{}}
+	l.src = importer.ForCompiler(fset, "source", nil).(types.ImporterFrom)
+	return l
 }
 
 func (l *loader) Import(path string) (*types.Package, error) { return l.ImportFrom(path, l.repo, 0) }
@@ -104,6 +120,18 @@ func (l *loader) check(path string) *types.Package {
 	l.infos[path] = info
 	l.files[path] = byRel
 	for _, f := range files {
+		var stack []ast.Node
+		ast.Inspect(f, func(n ast.Node) bool {
+			if n == nil {
+				stack = stack[:len(stack)-1]
+				return true
+			}
+			if len(stack) > 0 {
+				l.parents[n] = stack[len(stack)-1]
+			}
+			stack = append(stack, n)
+			return true
+		})
 		for _, d := range f.Decls {
 			if fd, ok := d.(*ast.FuncDecl); ok && fd.Body != nil {
 				if fn, ok := info.Defs[fd.Name].(*types.Func); ok {
@@ -115,6 +143,10 @@ func (l *loader) check(path string) *types.Package {
 	// private functions the specification names: a renamed one keeps its role and the specification's name (canon.go)
 	l.renamed = append(l.renamed, resolveAllPrivate(l.mod, p)...)
 	return p
+}
+
+func (l *loader) inModule(p *types.Package) bool {
+	return p != nil && (p.Path() == l.mod || strings.HasPrefix(p.Path(), l.mod+"/"))
 }
 
 // the declaration of a function / method of the module (generic instantiations resolve to their origin)
@@ -156,36 +188,6 @@ func recvName(fd *ast.FuncDecl) string {
 	return ""
 }
 
-func leanStr(s string) string {
-	s = strings.ReplaceAll(s, "\\", "\\\\")
-	s = strings.ReplaceAll(s, "\"", "\\\"")
-	s = strings.ReplaceAll(s, "--", "-\\x2d") // ./check strips `--` comments line-wise before it looks for forbidden words
-	return "\"" + s + "\""
-}
-
-func leanStrs(ss []string) string {
-	var out []string
-	for _, s := range ss {
-		out = append(out, leanStr(s))
-	}
-	return "[" + strings.Join(out, ", ") + "]"
-}
-
-func fatal(a ...any) {
-	fmt.Fprintln(os.Stderr, append([]any{"resfacts:"}, a...)...)
-	os.Exit(1)
-}
-
-func writeIfChanged(path, content string) {
-	old, err := os.ReadFile(path)
-	if err == nil && string(old) == content {
-		return
-	}
-	if err := os.WriteFile(path, []byte(content), 0o644); err != nil {
-		fatal(err)
-	}
-}
-
 func moduleOf(repo string) string {
 	b, err := os.ReadFile(filepath.Join(repo, "go.mod"))
 	if err != nil {
@@ -198,22 +200,4 @@ func moduleOf(repo string) string {
 	}
 	fatal("no module line in go.mod")
 	return ""
-}
-
-func isNil(e ast.Expr) bool {
-	id, ok := e.(*ast.Ident)
-	return ok && id.Name == "nil"
-}
-
-func contains(outer, inner ast.Node) bool {
-	return outer != nil && inner != nil && outer.Pos() <= inner.Pos() && inner.End() <= outer.End()
-}
-
-func addUnique(xs []string, s string) []string {
-	for _, x := range xs {
-		if x == s {
-			return xs
-		}
-	}
-	return append(xs, s)
 }
